@@ -272,7 +272,7 @@ func runProbe(prop string, seed uint64, n int, outPath string, maxViol int) int 
 		if len(res.Samples) < 3 {
 			res.Samples = append(res.Samples, c)
 		}
-		msgs, hung := guarded(func() []string { return sp.oracle(c, r) })
+		msgs, hung := guarded(func() []string { return sp.oracle(c, rngFor(c)) })
 		if hung {
 			// the goroutine cannot be stopped: record the case and end the process
 			res.Violations = append(res.Violations, Violation{Property: prop, Case: c, Messages: msgs})
@@ -297,6 +297,16 @@ func runProbe(prop string, seed uint64, n int, outPath string, maxViol int) int 
 	res.WallS = time.Since(start).Seconds()
 	writeJSON(outPath, res)
 	return 0
+}
+
+// every random choice an oracle makes for a case derives from the case itself, so that a recorded violation
+// replays exactly
+func rngFor(c Case) *Rng {
+	h := uint64(1469598103934665603)
+	for _, b := range []byte(c.Key()) {
+		h = (h ^ uint64(b)) * 1099511628211
+	}
+	return NewRng(h)
 }
 
 // guarded evaluates f under a watchdog: wall-clock (VH_CASE_TIMEOUT seconds, default 20) and heap (4 GiB)
@@ -342,7 +352,7 @@ func shrinkCase(c Case, sp propSpec, seed uint64) (Case, []string) {
 		if len(d.Edges) == 0 {
 			return nil
 		}
-		return sp.oracle(d, NewRng(seed))
+		return sp.oracle(d, rngFor(d))
 	}
 	best := c
 	bestMsgs := try(c)
@@ -498,7 +508,7 @@ func runReplay(path string) int {
 		fmt.Fprintln(os.Stderr, "no oracle for", v.Property)
 		return 2
 	}
-	msgs := sp.oracle(v.Case, NewRng(1))
+	msgs := sp.oracle(v.Case, rngFor(v.Case))
 	keys := []string{}
 	for _, m := range msgs {
 		keys = append(keys, m)
